@@ -251,13 +251,26 @@ func runC14(c *fw.Ctx) {
 			if len(obs.RaisedQ)+len(obs.AcceptedQ) > 0 {
 				queuedParamChange = true
 			}
-			e.Gov(what, &enttypes.MsgUpdateParams{Authority: lab.GovAuthority(), Params: p})
+			if r.Chance(30) {
+				// all or none also holds for the messages of ONE governance proposal: the update is followed
+				// by a message that fails, x/gov discards the branch, nothing of it may remain
+				e.Gov(what+" + failing message (rolled back)", &enttypes.MsgUpdateParams{Authority: lab.GovAuthority(), Params: p}, failingGovMsg(e))
+				c.Count("rolled_back_param_changes", 1)
+			} else {
+				e.Gov(what, &enttypes.MsgUpdateParams{Authority: lab.GovAuthority(), Params: p})
+			}
 			c.Count("ent_param_changes", 1)
 		case 1:
 			regGovChange(e, r, "")
 		case 2:
 			vf := []string{"0", "0.5", "1", "0.000000000000000001"}
-			e.Gov("stream fee", &streamtypes.MsgUpdateParams{Authority: lab.GovAuthority(), Params: streamtypes.Params{ValidatorFee: sdk.MustNewDecFromStr(vf[r.Intn(4)])}})
+			sp := &streamtypes.MsgUpdateParams{Authority: lab.GovAuthority(), Params: streamtypes.Params{ValidatorFee: sdk.MustNewDecFromStr(vf[r.Intn(4)])}}
+			if r.Chance(30) {
+				e.Gov("stream fee + failing message (rolled back)", sp, failingGovMsg(e))
+				c.Count("rolled_back_param_changes", 1)
+				break
+			}
+			e.Gov("stream fee", sp)
 		case 3: // extreme purchase orders
 			if len(obs.Whitelist) > 0 {
 				if p, ok := g.acctByAddr(obs.Whitelist[r.Intn(len(obs.Whitelist))]); ok {
@@ -316,6 +329,11 @@ func runC14(c *fw.Ctx) {
 	if c.Case < 2 {
 		c.Sample(map[string]interface{}{"trace_tail": e.TraceTail(30)})
 	}
+}
+
+// failingGovMsg: a message the gov account cannot execute (a transfer of more than it holds).
+func failingGovMsg(e *Env) sdk.Msg {
+	return banktypes.NewMsgSend(lab.ModAddr("gov"), e.L.Accts[1].Addr, sdk.NewCoins(sdk.NewCoin(lab.Denom, math.NewIntWithDecimal(1, 40))))
 }
 
 type big2 = big.Int
